@@ -627,8 +627,71 @@ pub fn on_used_connection<C: std::fmt::Debug + Clone + 'static>(
         .boxed()
 }
 
+/// Typed conversions that FAIL, made on the calling thread just before the conversion under test: a
+/// rejected reply must leave nothing behind (in statics, thread-locals, pools) that shows in the next
+/// conversion on the same thread. Every result is ignored; only panics propagate.
+pub fn fail_some_typed_conversions_first() {
+    use mpd_client::commands::{self as c, Command as _};
+    let frame = |wire: &str| -> Option<mpd_protocol::response::Frame> {
+        let st = state(GREETING, wire.as_bytes(), &Seg::Whole);
+        let mut conn = Connection::connect(ChunkReader(st)).ok()?;
+        conn.receive().ok()??.into_single_frame().ok()
+    };
+    // a listing that breaks off in the middle of its second song
+    let listing = "file: earlier/one.mp3\nTitle: Earlier One\nArtist: Left Over\nduration: 12.5\nPos: 0\nId: 70\nfile: earlier/two.mp3\nTitle: Half Built\nAlbum: Residue\nduration: n/a\nOK\n";
+    if let Some(f) = frame(listing) {
+        let _ = c::Queue.response(f);
+    }
+    if let Some(f) = frame(listing) {
+        let _ = c::Find::new(mpd_client::filter::Filter::tag_exists(mpd_client::tag::Tag::Title)).response(f);
+    }
+    if let Some(f) = frame(listing) {
+        let _ = c::CurrentSong.response(f);
+    }
+    if let Some(f) = frame(listing) {
+        let _ = c::GetPlaylist("residue").response(f);
+    }
+    if let Some(f) = frame("directory: earlier\nfile: earlier/three.mp3\nTime: x\nOK\n") {
+        let _ = c::ListAllIn::root().response(f);
+    }
+    for (wire, which) in [
+        ("volume: 40\nrepeat: 1\nstate: play\nsong: 3\nelapsed: oops\nOK\n", 0u8),
+        ("uptime: 5\nplaytime: never\nOK\n", 1),
+        ("songs: 3\nplaytime: never\nOK\n", 2),
+        ("Album: Residue\nsongs: many\nplaytime: 1\nOK\n", 3),
+        ("playlist: residue\nOK\n", 4),
+        ("sticker: residue\nOK\n", 5),
+        ("file: earlier/one.mp3\nsticker: novalue\nOK\n", 6),
+        ("channel: residue\nOK\n", 7),
+        ("updating_db: soon\nOK\n", 8),
+        ("Id: none\nOK\n", 9),
+        ("size: 10\nOK\n", 10),
+    ] {
+        let Some(f) = frame(wire) else { continue };
+        match which {
+            0 => drop(c::Status.response(f)),
+            1 => drop(c::Stats.response(f)),
+            2 => drop(c::Count::new(mpd_client::filter::Filter::tag_exists(mpd_client::tag::Tag::Title)).response(f)),
+            3 => drop(c::CountGrouped::new(mpd_client::tag::Tag::Album).response(f)),
+            4 => drop(c::GetPlaylists.response(f)),
+            5 => drop(c::StickerGet::new("u", "n").response(f)),
+            6 => drop(c::StickerFind::new("", "n").response(f)),
+            7 => drop(c::ReadChannelMessages.response(f)),
+            8 => drop(c::Update::new().response(f)),
+            9 => drop(c::Add::uri("u").response(f)),
+            _ => drop(c::AlbumArt::new("u").response(f)),
+        }
+    }
+}
+
 impl<C> OnUsedConnection<C> {
+    /// every third variant: some failing typed conversions are made on this thread first
+    pub fn after_failed_conversions(&self) -> bool {
+        self.variant % 3 == 1
+    }
+
     pub fn classify(&self, r: &mut crate::core::CaseResult) {
+        r.class_if(self.after_failed_conversions(), "after_failed_conversions_on_the_thread");
         r.class_if(!self.history.is_empty(), "connection_with_history");
         r.class_if(self.history.distinct_keys >= 255, "history_255plus_distinct_keys");
         r.class_if(self.history.same_keys_first, "history_same_keys_seen_before");
